@@ -145,6 +145,15 @@ pub fn plan_for(prop: &str, tier: Tier) -> Option<PropPlan> {
                 Plan { shape: Shape::History, groups: G_LAYOUT | G_BACKEND, random: Some((hc, ho)), spec: spec("C10", OPS_CAP | ops(&[OP_PUSH, OP_INSERT, OP_POP, OP_REMOVE, OP_BULK_PUSH, OP_CLEAR]), MON_CAP, l) },
             ],
         }),
+        "C12" => Some(PropPlan {
+            rule: "case = ((len, capacity) state, every view: as_bytes/as_bytes_mut/spare_bytes_mut/typed as_ptr/as_slice/as_mut_slice/spare_capacity_mut compared by address arithmetic with base + len x size; k values written into spare capacity (typed or byte view) + set_len) | (vector value moved to every admissible offset of a 64-byte aligned arena, storage pointer alignment checked by integer arithmetic when empty and after each push); non-trivial = alignment>8, or size not in {0,8}, or 0<len<cap, or non-zero placement offset; distinct = distinct (configuration, pick sequence)",
+            bound: format!("exhaustive for len<={} x capacity classes on all layouts and backends incl. over-aligned elements on inline backends; every offset in one 64-byte period", l),
+            plans: vec![
+                Plan { shape: Shape::Step, groups: G_LAYOUT | G_BACKEND | G_RAW, random: None, spec: spec("C12", ops(&[OP_VIEWS, OP_WRITE_SPARE]), MON_VIEW, l) },
+                Plan { shape: Shape::Placement, groups: G_LAYOUT | G_BACKEND | G_RAW | G_ALIGN, random: None, spec: spec("C12", ops(&[OP_VIEWS]), MON_VIEW, l) },
+                Plan { shape: Shape::History, groups: G_LAYOUT | G_BACKEND, random: Some((hc, ho)), spec: spec("C12", ops(&[OP_VIEWS, OP_WRITE_SPARE, OP_PUSH, OP_REMOVE, OP_RESERVE, OP_SHRINK_FIT]), MON_VIEW, l) },
+            ],
+        }),
         "C13" => Some(PropPlan {
             rule: "case = (state, index 0..=len+1, get/at/get_mut/at_mut erased and typed) | (write through one of 8 mutable views then read through one of 8 views) | (AnyValueMut::swap for every ordered pair of {ElementMut, removal handle, AnyValueWrapper, AnyValueRaw, drained element}); oracle: model payloads, value_typeid/size/bytes/address of every handle, exactly the two values exchanged; non-trivial = boundary index, writer/reader pairs, mixed handle kinds; distinct = distinct (configuration, pick sequence)",
             bound: format!("exhaustive one-step for len<={} on all layouts; proptest {} histories x <= {} ops", l, hc, ho),
